@@ -153,6 +153,11 @@ Stats ==
         \* a new block (count 1) that follows a success which arrived while the battery was not blocked
         successUnblockedThenFail |-> N({<<i, b>> \in (1..NL) \X Bats : Pre(i).k[b].rs \in {"okIdle", "okExpiredUN", "okExpiredWK"} /\ GS[i].k[b].rs = "none"}),
         successAfterExpiryThenFail |-> N({<<i, b>> \in (1..NL) \X Bats : Pre(i).k[b].rs = "okExpiredWK" /\ GS[i].k[b].rs = "none"}),
+        \* a consecutive failure (no success in between) arriving later than previous expiry + doubled duration
+        lateConsecutiveFail |-> N({<<i, b>> \in (1..NL) \X Bats :
+                                     /\ Tr.lines[i].ev = "res" /\ Tr.lines[i].f[b] = "fail"
+                                     /\ Pre(i).real[b] # "NW" /\ Pre(i).k[b].act
+                                     /\ GS[i].t >= Until(Pre(i).k[b]) + BackoffDur(Min2(Pre(i).k[b].n + 1, NfCap))}),
         successWhileBlockedThenFail |-> N({<<i, b>> \in (1..NL) \X Bats : Pre(i).k[b].rs = "okBlocked" /\ GS[i].k[b].rs = "none"}),
         fallbackUsed |-> N({<<i, j>> \in Q \X (1..8) : Tr.lines[i].haspool /\ j <= Len(Tr.lines[i].gw)
                               /\ LET S == ToSet(Tr.lines[i].gw[j].s) IN
